@@ -78,7 +78,7 @@ def random_file(rng, nv, nl):
                 else:
                     t_ = bad
             lines.append({'k': 'e', 's': s_, 't': t_,
-                          'w': rng.choice([OMITTED, 1000, 2000, 15000, 2500, 125, 999000, 31000, 1, 100000])})
+                          'w': rng.choice([OMITTED, 1000, 2000, 15000, 2500, 125, 999000, 31000, 1, 100000, 100, 3700, 333, 700, 12345678, 16777217])})
     return {'lines': lines, 'nl': rng.random() < 0.5}
 
 
@@ -98,10 +98,10 @@ def check_C10(res, tier, seed, replay):
         res.add_mc('Dimacs.tla: line-by-line reader machine = whole-file meaning (edges in file order, declared endpoints only, error at the first undeclared endpoint), all files within the bound', r)
         exe = harness()
         if tier == 'quick':
-            files, multi = gen_files(wd, 2, 2, [1000, 2500], 2, 3, [-1, 0, 1])
+            files, multi = gen_files(wd, 2, 2, [1000, 2700], 2, 3, [-1, 0, 1])
         else:
             # <= 2 body lines over 2 declared vertices and three weights, plus <= 3 body lines over 1 declared vertex (endpoints 0..NV+1)
-            files, multi = gen_files(wd, 2, 2, [1000, 2500, 15000], 3, 3, [-1, 0, 1])
+            files, multi = gen_files(wd, 2, 2, [1000, 2700, 15000], 3, 3, [-1, 0, 1])
             f3, _ = gen_files(wd, 1, 3, [15000], 1, 0, [-1, 0, 1])
             files += f3
         res.cov['exhaustive_space'] = '%d abstract files (<= %d body lines over <= 2 declared vertices, endpoints 0..NV+1, comments anywhere, weights present/omitted/decimal, with/without trailing newline); %d multigraphs for the validators' % (
